@@ -1218,7 +1218,9 @@ fn supervise(id: &str, tier: Tier, replay: Option<&Path>) -> ! {
     use std::process::{Command, Stdio};
     let exe = std::env::current_exe().expect("current_exe");
     let args: Vec<String> = std::env::args().skip(1).collect();
-    let slot_dir = std::env::temp_dir().join(format!("vcore-slots-{}-{}", id, std::process::id()));
+    // slot files are rewritten for every case: keep them on tmpfs when there is one
+    let slot_base = if Path::new("/dev/shm").is_dir() { PathBuf::from("/dev/shm") } else { std::env::temp_dir() };
+    let slot_dir = slot_base.join(format!("vcore-slots-{}-{}", id, std::process::id()));
     let _ = std::fs::remove_dir_all(&slot_dir);
     std::fs::create_dir_all(&slot_dir).expect("slot dir");
     let timeout_s: u64 = std::env::var("VCORE_TIMEOUT_S")
